@@ -349,6 +349,25 @@ theorem plain_statement_advances_iff_documented_now (rx : Rx) (sa : String → O
     | no => rw [hsc] at hok; simp [Res.isOk] at hok
     | err => exact absurd hsc hne
 
+/-- Instance references in a history: a waiting `match $action_ref.Finished(<expressions>)` never advances on an event
+    of another (or of no) action instance — whatever its parameters are worth now and whatever was compared before. -/
+theorem waiting_action_ref_only_own_instance (rx : Rx) (sa : String → Option (List (String × Val)))
+    (env : Env) (h : Head) (pre : List Step) (e : Ev) (a : ActionObj) (member : String)
+    (h0 : h.waiting = true) (hw : (runState rx sa env h pre).2.waiting = true)
+    (hs : ∀ ms, h.stmt (envAfter env pre) = some ms → ∃ args, ms = .actionRef a member args)
+    (hk : e.kind = .action) (hi : e.name ∉ internalEventsAll) (hu : e.actionUid ≠ some a.uid) :
+    outcomeAfter rx sa env h pre e ≠ .hit := by
+  intro hhit
+  obtain ⟨_, ms, ref, k, p, h1, h2, h3⟩ := (waiting_statement_follows_current_state rx sa env h pre e h0 hw).1 hhit
+  obtain ⟨args, rfl⟩ := hs ms h1
+  have hz : eventScore rx sa e ref h.prio = .zero :=
+    action_ref_only_own_instance rx sa a member args e ref h.prio h2 hk (fun hh => hi hh.1)
+      (fun hh => hi (by rw [hh.1]; decide)) hu
+  unfold matchingScore at h3
+  split at h3
+  · rw [hz] at h3; cases h3
+  · cases h3
+
 /-- What the code must not do (the seeded change `C04-e`): with the reference event kept per head from the first
     comparison on, `match $a.Finished(final_script=$g)` with `$g` changed from "a" to "b" after a first non-matching
     event of that action advances on `final_script="a"` — while the statement evaluated now asks for "b" (`runHist`,
@@ -388,6 +407,27 @@ example :
     kindIsInstance, eventScore, eventCore, score, scoreDict, lookup, outcomeOf, internalEventsAll, evStartFlow,
     evFlowFinished, evFlowFailed, evFlowStarted, argumentFilter, Val.isInstanceOfTypeOf, Val.pyType, PyType.isSub,
     Val.scalarEq]
+
+/-- non-vacuity of `waiting_action_ref_only_own_instance`: the hypotheses hold for the head above and an event of
+    action `u2` that carries exactly the value the statement asks for now; it stays idle -/
+example :
+    let a : ActionObj := { uid := "u1", name := "A", startArgs := [] }
+    let h : Head := { stmt := fun env => env[0]?.map fun v => .actionRef a "Finished" [("final_script", v)],
+                      evName := "AFinished" }
+    let e : Ev := { kind := .action, name := "AFinished", args := [("final_script", .str "b")], actionUid := some "u2" }
+    let pre : List Step := [.set 0 (.str "b")]
+    (∀ ms, h.stmt (envAfter [.str "a"] pre) = some ms → ∃ args, ms = .actionRef a "Finished" args)
+    ∧ e.name ∉ internalEventsAll ∧ e.actionUid ≠ some a.uid
+    ∧ outcomeAfter (fun _ _ => false) (fun _ => none) [.str "a"] h pre e = .idle := by
+  refine ⟨?_, ?_, ?_, ?_⟩
+  · intro ms hms
+    simp [envAfter] at hms
+    exact ⟨_, hms.symm⟩
+  · simp [internalEventsAll]
+  · simp
+  · simp [outcomeAfter, runState, stepHead, headScore, isCandidate, refEvent, ActionObj.matchEvent, matchingScore,
+      kindIsInstance, eventScore, eventCore, outcomeOf, internalEventsAll, evStartFlow, evFlowFinished, evFlowFailed,
+      evFlowStarted]
 
 /-- non-vacuity of `plain_statement_advances_iff_documented_now` for `match Ev(x=$g)`.  The kernel cannot evaluate
     `String.splitOn` (recursion over byte positions), so the fact `"Action" not in "Ev"` is a hypothesis here; the
